@@ -23,6 +23,7 @@ struct Opts {
     bin_dir: PathBuf,
     repo_bin_dir: PathBuf,
     budget: Duration,
+    corpus: PathBuf,
 }
 
 fn parse_opts(args: &[String]) -> Opts {
@@ -39,6 +40,7 @@ fn parse_opts(args: &[String]) -> Opts {
             .unwrap_or_else(|| PathBuf::from(".")),
         repo_bin_dir: PathBuf::from("."),
         budget: Duration::from_secs(3600),
+        corpus: PathBuf::from("/verif/corpus"),
     };
     let mut i = 0;
     while i < args.len() {
@@ -78,6 +80,10 @@ fn parse_opts(args: &[String]) -> Opts {
                 o.repo_bin_dir = PathBuf::from(val(i));
                 i += 2;
             }
+            "--corpus" => {
+                o.corpus = PathBuf::from(val(i));
+                i += 2;
+            }
             "--budget-s" => {
                 o.budget = Duration::from_secs(val(i).parse().unwrap_or_else(|_| usage()));
                 i += 2;
@@ -113,6 +119,8 @@ fn main() {
                 o.repo_bin_dir,
                 o.budget,
             );
+            ctx.corpus_dir = o.corpus;
+            props::run_corpus(&mut ctx, &prop);
             if !props::run(&mut ctx, &prop) {
                 eprintln!("HARNESS-ERROR unknown property {}", prop);
                 std::process::exit(2);
